@@ -779,3 +779,11 @@ func (Prop) Describe(ev *kernel.Evidence) {
 		"a same-value write is not a C05 violation (nothing a sequential caller can see); it is C06's business",
 	}
 }
+
+// mapOrderEvidence reports from what the children measured, whichever binary the orchestrator is.
+func mapOrderEvidence(st map[string]int64) any {
+	if st["map_ranges_executed"] > 0 {
+		return map[string]any{"build": "map-order variant: every map range of gojq and gojq/cli rewritten (go/ast, scratch copy) to ask the simulator for the order", "modes_per_history": "sorted, reverse, rotated by one, seeded shuffle", "map_ranges_executed_under_the_seam": st["map_ranges_executed"]}
+	}
+	return map[string]any{"build": "standard (the map-order variant could not be built from this tree): Go's own randomised map iteration order, the map-order sub-check was SKIPPED"}
+}
